@@ -203,6 +203,35 @@ def _stateful_subclasses(c):
         yield from _stateful_subclasses(s)
 
 
+_PROBE = []
+
+
+def probe_registry():
+    """A registry of the library's own PartialDispatcher class whose patterns discriminate on
+    DEEP structure (element types of frozensets and tuples).  The library registers only bare
+    `frozenset` / `tuple` patterns, so a dispatcher that keys its cache more coarsely than it
+    matches is invisible on the library's registries; this one makes cache-state and
+    first-use-order dependence observable (found by a seeded fault)."""
+    if not _PROBE:
+        d = PartialDispatcher(name="verif_probe")
+        sigs = [(object,), (frozenset,), (typing.FrozenSet[str],), (typing.FrozenSet[int],),
+                (typing.FrozenSet[typing.Tuple[str, int]],), (tuple,), (typing.Tuple[int, ...],),
+                (typing.Tuple[int, str],), (typing.Tuple[str, ...],)]
+        for k, sg in enumerate(sigs):
+            d.add(sg, _ProbeRule(k))
+        _PROBE.append(d)
+    return _PROBE[0]
+
+
+class _ProbeRule:
+    def __init__(self, k):
+        self.k = k
+        self.__name__ = "probe_rule_%d" % k
+
+    def __call__(self, *args):
+        return self.k
+
+
 def collect_registries(tier):
     """name -> PartialDispatcher for every keyed registry of the interpretations and
     every op dispatcher (the same PartialDispatcher machinery)."""
@@ -226,8 +255,9 @@ def collect_registries(tier):
             if owner:
                 opd.append(Reg("ops/%s" % o.name, o))
                 seen.add(id(o))
+    opd = [r for r in opd if r.d is not probe_registry()]
     opd.sort(key=lambda r: r.name)
-    return regs + opd
+    return regs + opd + [Reg("probe/deep", probe_registry())]
 
 
 def sig_parts(sig):
@@ -296,6 +326,7 @@ def handmade_objects():
         (), (1,), (1, "a"), (1, 2, 3), ("a", (2.5,)), (("i", Bint[2]),), (ti, tij), (n1, ti), (ti, g), (dl, ti, g),
         (g, Unary(ops.neg, g)),
         frozenset(), frozenset({vi}), frozenset({vi, vr}), frozenset({"a", "b"}), frozenset({1}),
+        frozenset({1, 2}), frozenset({("a", 1)}), frozenset({2.5}), ("a",), ("a", "b"), (2.5,),
         ops.add, ops.mul, ops.logaddexp, ops.neg, ops.exp, ops.null, ops.getitem, ops.max, ops.sub,
     ]
     return out
@@ -798,7 +829,9 @@ def choose_machine(rec, tier, ok_ids):
     interp = [ri for ri in ranked if rec.regs[ri].name.split("/")[0] in five]
     other = [ri for ri in ranked if ri not in interp]
     n_other = 1 if tier == "quick" else 2
-    chosen = interp[:n_reg - n_other] + other[:n_other]
+    probe = [ri for ri in ranked if rec.regs[ri].name == "probe/deep"]
+    other = [ri for ri in other if ri not in probe]
+    chosen = interp[:n_reg - n_other] + other[:n_other] + probe
     machine = []
     for ri in chosen:
         byfn = collections.OrderedDict()
@@ -807,7 +840,7 @@ def choose_machine(rec, tier, ok_ids):
         pick = []
         for lst in itertools.zip_longest(*byfn.values()):
             pick += [k for k in lst if k is not None]
-        pick = pick[:n_tup]
+        pick = pick[:(n_tup + 1 if ri in probe else n_tup)]
         machine.append({"reg": ri + 1, "tuples": [rec.events[k]["args"] for k in pick], "_events": pick})
     rec.machine = machine
     rec.header["machine"] = [{"reg": m["reg"], "tuples": m["tuples"]} for m in machine]
